@@ -47,6 +47,14 @@ def tie_package(rng, gated: set) -> dict:
         + "".join(f"@{deco}\nclass Ord{k}:\n{body}" for k, deco in enumerate(["functools.total_ordering", "total_ordering", "ordered", "ft.total_ordering"]))
         + "".join(f"@{deco}\nclass Data{k}:\n    b: int = 0\n    a: str = ''\n    c: float = 0.0\n\n\n" for k, deco in enumerate(["dataclass(order=True)", "dc(order=True, frozen=True)", "dataclasses.dataclass(order=True, eq=True)", "dc"]))
     )
+    # modules that END with a generic class whose class-level attributes are typed by its type variables (nothing follows that
+    # could take over what the class leaves behind), next to modules that start with plain functions: every enumeration order
+    for nm_ in ("aa_tail", "mm_tail", "zz_tail"):
+        files[f"src/pk/{nm_}.py"] = (
+            "from typing import Generic, TypeVar\n\nK = TypeVar(\"K\")\nV = TypeVar(\"V\")\n\n\n"
+            f"def first_of_{nm_}(n: int = 0) -> int: ...\n\n\nclass Pair_{nm_}(Generic[K, V]):\n    key: K\n    value: V\n"
+        )
+        files[f"src/pk/{nm_}_next.py"] = f"def area_{nm_}(w: float, h: float) -> float: ...\n\n\nclass Plain_{nm_}:\n    def __init__(self, n: int = 0) -> None:\n        self.n = n\n\n    def go(self, q: int) -> int: ...\n"
     # (b) the same short class name in several modules, each used next door
     for i, p in enumerate(("alpha", "beta", "gamma")):
         files[f"src/pk/{p}/__init__.py"] = ""
